@@ -940,8 +940,16 @@ func c18Corruption(c *Ctx, j *c18Judge, idx int, r *Rng) {
 	if mode == 0 {
 		// unsupported / odd hash algorithms
 		algo := Pick(r, []string{"sha512", "md5", "SHA256", "sha256 ", "sha-256", "sha256", ""})
+		// the algorithm may also appear only in a LATER batch response of the same command (second batch
+		// of a transfer split by lfs.transfer.batchsize): every response is to be judged on its own
+		from := Pick(r, []int{0, 0, 1})
+		if from == 1 {
+			w.git("config", "lfs.transfer.batchsize", "1")
+			w.git("config", "lfs.concurrenttransfers", "1")
+		}
 		srv.mu.Lock()
 		srv.hashAlgo = algo
+		srv.hashAlgoFrom = from
 		srv.mu.Unlock()
 		op := Pick(r, []string{"push", "fetch"})
 		if op == "fetch" {
@@ -961,14 +969,29 @@ func c18Corruption(c *Ctx, j *c18Judge, idx int, r *Rng) {
 		} else {
 			out, code = w.runLfs("fetch", "--all")
 		}
-		cas := fmt.Sprintf("C18 hashalgo seed=%d idx=%d algo=%q op=%s", c.Seed, idx, algo, op)
+		cas := fmt.Sprintf("C18 hashalgo seed=%d idx=%d algo=%q op=%s from-batch=%d", c.Seed, idx, algo, op, from)
 		ans, err := c.Or.Ask([]string{"C18 hashalgo " + hexOrDash(algo)})
 		srv.mu.Lock()
+		// transfer requests that act upon a response naming the algorithm: requests for an object made
+		// after such a response offered it (objects answered by earlier, clean responses do not count)
 		transfers := 0
-		for _, rq := range srv.reqs {
+		for i, rq := range srv.reqs {
 			if rq.Kind == "storage-put" || rq.Kind == "storage-get" || rq.Kind == "verify" {
-				transfers++
+				oid := strings.TrimPrefix(rq.Path, "/storage/")
+				if rq.Kind == "verify" {
+					var v struct {
+						Oid string `json:"oid"`
+					}
+					json.Unmarshal([]byte(rq.Body), &v)
+					oid = v.Oid
+				}
+				if at, ok := srv.taintedAt[oid]; (ok && i >= at) || algo == "" {
+					transfers++
+				}
 			}
+		}
+		if from > 0 {
+			c.R.Count(fmt.Sprintf("corrupt.hashalgo.later-batch.answers=%d", srv.batchAnswers))
 		}
 		srv.mu.Unlock()
 		supported := algo == "" || algo == "sha256"
